@@ -63,6 +63,10 @@ struct urcu_gp urcu_qsbr_gp = { .ctr = URCU_QSBR_GP_ONLINE };
  * Active attempts to check for reader Q.S. before calling futex().
  */
 #define RCU_QS_ACTIVE_ATTEMPTS 100
+#ifdef URCU_VERIF_RCU_QS_ACTIVE_ATTEMPTS
+#undef RCU_QS_ACTIVE_ATTEMPTS
+#define RCU_QS_ACTIVE_ATTEMPTS URCU_VERIF_RCU_QS_ACTIVE_ATTEMPTS
+#endif
 
 /*
  * Written to only by each individual reader. Read by both the reader and the
